@@ -13,7 +13,7 @@ RULE = ('seeded sessions over all operations pushed to the extremes the API can 
         'to 2^32-1, maxdata up to 1 MiB with 0xFF-filled pushes, bytes and bytearray payloads, DONE mtimes up to 2^32-1, long paths; a fifth of the sessions authenticate with 1-4 keys against a device that rejects the first ones); every host '
         'byte is parsed by an independent decoder; non-trivial = the run carried >= 1 payload packet and >= 4 packets; distinct = event-log digests')
 ASSUMPTIONS = ['the pack/unpack clause is exercised only at the values simulated sessions produce (incl. 32-bit extremes); no separate input fuzzer is claimed']
-EXPECT_PROBES = {'all': ['c02_arg_ge_2_31', 'c02_payload_sum_ge_2_24', 'c02_payload_ge_64k', 'c02_auth_messages', 'c02_newer_version_64k', 'c02_tcp_backpressure']}
+EXPECT_PROBES = {'all': ['c02_arg_ge_2_31', 'c02_payload_sum_ge_2_24', 'c02_payload_ge_64k', 'c02_auth_messages', 'c02_newer_version_64k', 'c02_tcp_backpressure', 'debug_logging_on']}
 KINDS = ['shell', 'exec_out', 'streaming_shell', 'root', 'list', 'stat', 'pull', 'push', 'push', 'push']
 OWN = ('wire-format', 'wire-partial-message', 'unpack-mismatch', 'hang', 'no-termination')
 
@@ -45,6 +45,8 @@ def generate(seed, tier):
         scn['tcp'] = {'sndbuf': g.pick([256, 4096, 65536]), 'drain': g.pick([64, 1000, 30000]), 'drain_every': g.pick([1e-4, 1e-3]),
                       'high_water': g.pick([4096, 65536])}
         scn['config'].pop('short', None)
+    if g.chance(0.15):
+        scn['config']['log_debug'] = True      # what goes on the wire must not depend on the log level
     if g.chance(0.2):
         # AUTH messages: several keys, the device accepts a later one (or only the public key), fresh token per challenge
         nk = g.int(1, 4)
